@@ -47,6 +47,10 @@ class Prop:
     def cases(self, rng: random.Random, tier: str):
         raise NotImplementedError
 
+    def mutants(self, case, rng: random.Random):
+        """Random small variations of a case on which model and implementation disagree (failing-input search); may be infinite."""
+        return iter(())
+
     def extra_search_cases(self, rng: random.Random, tier: str):
         """Larger stream used only when searching for a failing input."""
         return self.cases(rng, "thorough")
@@ -420,7 +424,32 @@ def run_check(prop: Prop, tier: str, seed: int, replay: str | None = None) -> in
         budget_s = 60 if tier == "quick" else 900
         ts = time.time()
         srng = random.Random(seed + 7919)
+        # (a) local search: small variations of the (shrunk) inputs on which model and code disagree
+        import itertools
+        mseeds = []
+        for c in cand_cases[:3]:
+            try:
+                mseeds.append(shrink_case(prop, c, model_fails, seconds=10) if ok else c)
+            except BaseException:
+                mseeds.append(c)
+        mseeds += cand_cases[:3]
+        mstreams = [prop.mutants(c, srng) for c in mseeds]
+        n_mut = 0
+        ts = time.time()
+        while found is None and mstreams and time.time() - ts < budget_s / 2:
+            batch = [m for st_ in mstreams for m in itertools.islice(st_, 16)]
+            if not batch:
+                break
+            n_mut += len(batch)
+            for c, (io, orc, _, _) in zip(batch, run_impl_side(prop, batch)):
+                bad = [v for v in orc if v.get("finding") not in open_ids and "time limit" not in str(v.get("what", ""))
+                       and "CaseTimeout" not in str(v.get("what", ""))]
+                if bad:
+                    found = (c, io, bad)
+                    break
+        # (b) the generator stream
         stream = iter(prop.extra_search_cases(srng, tier))
+        ts = time.time()
         while found is None and time.time() - ts < budget_s:
             batch = []
             for c in stream:
